@@ -9,7 +9,7 @@ only replayed that object's mutators (dst/oracle_fork.py).
 import copy
 
 from ..kernel import Violation, cjson
-from ..gen import gen_seq, AA
+from ..gen import gen_seq, AA, gen_special
 from ..clock import SimClock
 from ..rng import RngModule, TapeRandom, UniformDriver
 from ..simfs import SimFS
@@ -105,7 +105,10 @@ def gen_query(rnd, N, p_invalid):
     if x < 0.90:
         size = rnd.choice((7, 1, 21, 0)) if inv and rnd.random() < 0.6 else rnd.choice(ALPHA_SIZES)
         if rnd.random() < 0.3:
-            return ["get_reduced_alphabet_sequence", [size, gen_alphabet(rnd, inv)], {}]
+            ua = gen_alphabet(rnd, inv)
+            if rnd.random() < 0.5:
+                ua = {"__shared__": "ua", "value": ua}      # the caller reuses one dict object, edited in place
+            return ["get_reduced_alphabet_sequence", [size, ua], {}]
         return ["get_reduced_alphabet_sequence", [size], {}] if rnd.random() < 0.8 else ["get_reduced_alphabet_sequence", [], {}]
     t = rnd.choice(("XX", "rhp", 3)) if inv and rnd.random() < 0.3 else rnd.choice(("WF", "LC", "LZW", "wf", "lc"))
     size = 7 if inv and rnd.random() < 0.3 else rnd.choice(ALPHA_SIZES)
@@ -117,6 +120,8 @@ def gen_query(rnd, N, p_invalid):
         kw["wordSize"] = rnd.randrange(1, 5)
     if rnd.random() < 0.2:
         kw["userAlphabet"] = gen_alphabet(rnd, inv and rnd.random() < 0.5)
+        if rnd.random() < 0.5:
+            kw["userAlphabet"] = {"__shared__": "ua", "value": kw["userAlphabet"]}
     return ["get_linear_complexity", [], kw]
 
 
@@ -148,6 +153,12 @@ PATTERNS = (
     [["get_linear_complexity", [], {"complexityType": "XX"}], ["get_linear_complexity", [], {"blobLen": 2}]],
     [["get_reduced_alphabet_sequence", [7], {}], ["get_reduced_alphabet_sequence", [8], {}], ["get_reduced_alphabet_sequence", [], {}]],
     [["get_kappa_after_phosphorylation", [], {}], ["get_kappa", [], {}], ["get_full_phosphostatus_kappa_distribution", [], {}]],
+    [["get_isoelectric_point", [], {}], ["get_NCPR", [7.0], {}], ["get_mean_net_charge", [3.5], {}], ["get_FCR", [10.5], {}], ["get_fraction_expanding", [7.0], {}]],
+    [["get_NCPR", [7.0], {}], ["get_FCR", [3.5], {}], ["get_isoelectric_point", [], {}], ["get_NCPR", [7.0], {}]],
+    [["get_linear_sigma", [3], {}], ["get_linear_FCR", [3], {}], ["get_linear_NCPR", [3], {}], ["get_linear_sigma", [3], {}]],
+    [["get_reduced_alphabet_sequence", [20, {"__shared__": "ua", "value": {a: a for a in AA}}], {}],
+     ["get_reduced_alphabet_sequence", [20, {"__shared__": "ua", "value": {a: ("L" if a in "LVIMC" else "K") for a in AA}}], {}],
+     ["get_linear_complexity", [], {"complexityType": "WF", "blobLen": 2, "userAlphabet": {"__shared__": "ua", "value": {a: ("E" if a in "DE" else "G") for a in AA}}}]],
 )
 
 
@@ -158,7 +169,7 @@ def gen_plan(streams, tier):
     for _ in range(nobj):
         n = rnd.choice((rnd.randrange(1, 6), rnd.randrange(5, 20), rnd.randrange(15, 40), rnd.randrange(30, 61)))
         how = "file" if rnd.random() < 0.15 else "string"
-        objs.append({"seq": gen_seq(rnd, n), "how": how})
+        objs.append({"seq": gen_special(rnd) if rnd.random() < 0.08 else gen_seq(rnd, n), "how": how})
     if nobj > 1:
         x = rnd.random()
         s0 = objs[0]["seq"]
@@ -264,20 +275,24 @@ def execute(plan, ctx):
         spm.print = lambda *a, **k: None
     # the oracle is forked before anything of the history has run
     oracle = ForkOracle(sinks)
+    fsbox = []
     try:
-        return _run(plan, ctx, oracle, seqmod, sfp, spmod, SequenceParameters)
+        return _run(plan, ctx, oracle, seqmod, sfp, spmod, SequenceParameters, fsbox)
     finally:
         ctx.probe("oracle_requests", oracle.requests)
         oracle.close()
+        for f in fsbox:
+            f.cleanup()
 
 
-def _run(plan, ctx, oracle, seqmod, sfp, spmod, SequenceParameters):
+def _run(plan, ctx, oracle, seqmod, sfp, spmod, SequenceParameters, fsbox):
     spmod.print = lambda *a, **k: None
     clock = SimClock(ctx, ctx.streams.stream("clock"), "normal")
     driver = UniformDriver(ctx.streams.stream("tape"))
     seqmod.time = clock
     seqmod.rng = RngModule(lambda: TapeRandom("move", ctx, driver, 5000))
-    fs = SimFS(ctx)
+    fs = SimFS(ctx, prefix="dst_c15_")
+    fsbox.append(fs)
     sfp.open = fs.open
 
     objs, seqs, muts, sites, state, last_kind = [], [], [], [], [], []
@@ -293,8 +308,8 @@ def _run(plan, ctx, oracle, seqmod, sfp, spmod, SequenceParameters):
     for i, od in enumerate(plan["objects"]):
         s = od["seq"]
         if od.get("how") == "file":
-            path = "/sim/o%d.fasta" % i
-            fs.files[path] = bytearray((">obj%d\n" % i + "\n".join(s[j:j + 7] for j in range(0, len(s), 7)) + "\n").encode())
+            path = fs.path("/sim/o%d.fasta" % i)
+            fs.write_file(path, (">obj%d\n" % i + "\n".join(s[j:j + 7] for j in range(0, len(s), 7)) + "\n").encode())
             add(SequenceParameters(sequenceFile=path), s, "file")
             ctx.probe("file_built_object")
         else:
@@ -313,8 +328,8 @@ def _run(plan, ctx, oracle, seqmod, sfp, spmod, SequenceParameters):
     def build(od, tagn):
         s_ = od["seq"]
         if od.get("how") == "file":
-            path = "/sim/n%d.fasta" % tagn
-            fs.files[path] = bytearray((">obj\n" + "\n".join(s_[j:j + 7] for j in range(0, len(s_), 7)) + "\n").encode())
+            path = fs.path("/sim/n%d.fasta" % tagn)
+            fs.write_file(path, (">obj\n" + "\n".join(s_[j:j + 7] for j in range(0, len(s_), 7)) + "\n").encode())
             add(SequenceParameters(sequenceFile=path), s_, "file")
         else:
             add(SequenceParameters(s_), s_, "string")
